@@ -1,6 +1,7 @@
 mod conv;
 mod golden;
 mod ledger;
+mod loader;
 mod price;
 mod report;
 mod runner;
@@ -24,6 +25,7 @@ fn main() {
         "ledger" => runner::run_records(&opts, ledger::replay),
         "ledger-alias" => { let w = workdir.clone(); runner::run_records(&opts, move |i, r| ledger::replay_alias(i, r, &w)) }
         "conv" => { let w = workdir.clone(); runner::run_records(&opts, move |i, r| conv::replay(i, r, &w)) }
+        "loader" => { let w = workdir.clone(); runner::run_records(&opts, move |i, r| loader::replay(i, r, &w)) }
         "price" => { let w = workdir.clone(); runner::run_records(&opts, move |i, r| price::replay(i, r, &w)) }
         "report" => { let w = workdir.clone(); runner::run_records(&opts, move |i, r| report::replay(i, r, &w)) }
         _ => {
